@@ -272,7 +272,7 @@ func (c *cfgFloat) toUint(*options) (uint64, error) {
 	if c.f < 0 {
 		return 0, ErrNegative
 	}
-	if c.f > math.MaxUint64 {
+	if math.IsNaN(c.f) || c.f >= math.MaxUint64 {
 		return 0, ErrOverflow
 	}
 	return uint64(c.f), nil
